@@ -880,24 +880,42 @@ type c01Parse struct {
 
 // single-transaction entry points; each is given a byte string that starts
 // with the transaction. exact: the entry only accepts when nothing follows.
+// Every entry parses from a private copy of the bytes and, once the parser has
+// returned, overwrites that copy (the caller re-uses its buffer; a buffer that
+// was drained is refilled): what was parsed must not refer to it.
 var c01Entries = []struct {
 	name  string
 	exact bool
 	f     func(b []byte) c01Parse
 }{
 	{"NewTxFromBytes", true, func(b []byte) c01Parse {
-		tx, err := bt.NewTxFromBytes(b)
+		bb := append([]byte{}, b...)
+		tx, err := bt.NewTxFromBytes(bb)
+		mon.Scribble(bb)
 		return c01Parse{tx, int64(len(b)), -1, err}
 	}},
 	{"NewTxFromStream", false, func(b []byte) c01Parse {
-		tx, used, err := bt.NewTxFromStream(b)
+		bb := append([]byte{}, b...)
+		tx, used, err := bt.NewTxFromStream(bb)
+		mon.Scribble(bb)
 		return c01Parse{tx, int64(used), -1, err}
 	}},
 	{"Tx.ReadFrom/plain", false, func(b []byte) c01Parse {
-		r := bytes.NewReader(b)
+		bb := append([]byte{}, b...)
+		r := bytes.NewReader(bb)
 		tx := &bt.Tx{}
 		n, err := tx.ReadFrom(r)
+		mon.Scribble(bb)
 		return c01Parse{tx, n, int64(len(b) - r.Len()), err}
+	}},
+	{"Tx.ReadFrom/bytes.Buffer", false, func(b []byte) c01Parse {
+		buf := bytes.NewBuffer(append([]byte{}, b...))
+		tx := &bt.Tx{}
+		n, err := tx.ReadFrom(buf)
+		left := buf.Len()
+		buf.Reset()
+		buf.Write(bytes.Repeat([]byte{0xa7}, len(b))) // the drained buffer is filled with the next message
+		return c01Parse{tx, n, int64(len(b) - left), err}
 	}},
 	{"Tx.ReadFrom/one-byte", false, func(b []byte) c01Parse {
 		r := &c01CountReader{r: bytes.NewReader(b), chunk: 1}
@@ -912,10 +930,24 @@ var c01Entries = []struct {
 		return c01Parse{tx, n, r.n, err}
 	}},
 	{"Txs.ReadFrom", false, func(b []byte) c01Parse {
-		r := &c01CountReader{r: io.MultiReader(bytes.NewReader([]byte{1}), bytes.NewReader(b))}
+		buf := bytes.NewBuffer(append([]byte{1}, b...))
+		r := &c01CountReader{r: buf}
+		if len(b)%2 == 1 { // the concrete buffer itself / wrapped
+			r = nil
+		}
 		var txs bt.Txs
-		n, err := txs.ReadFrom(r)
-		p := c01Parse{nil, n - 1, r.n - 1, err}
+		var n, taken int64
+		var err error
+		if r != nil {
+			n, err = txs.ReadFrom(r)
+			taken = r.n
+		} else {
+			n, err = txs.ReadFrom(buf)
+			taken = int64(len(b) + 1 - buf.Len())
+		}
+		buf.Reset()
+		buf.Write(bytes.Repeat([]byte{0xa7}, len(b)+1))
+		p := c01Parse{nil, n - 1, taken - 1, err}
 		if err == nil {
 			if len(txs) != 1 {
 				p.err = fmt.Errorf("monitor: Txs.ReadFrom of a 1-element list returned %d elements", len(txs))
